@@ -21,6 +21,9 @@ pub struct Bus {
     rx: mpsc::Receiver<Msg>,
     pub log: Vec<(String, [u8; 16])>,
     paused: Arc<AtomicBool>,
+    hub2: UnixDatagram,
+    _dummy: UnixDatagram,
+    dummy_path: PathBuf,
 }
 
 pub fn bus_dir() -> PathBuf {
@@ -53,6 +56,10 @@ impl Bus {
         }
         let hp = dir.join(format!("{}.hub", iface));
         let hub = UnixDatagram::bind(&hp).unwrap();
+        let hub2 = hub.try_clone().unwrap();
+        let dummy_path = dir.join(format!("{}.dummy", iface));
+        let _ = std::fs::remove_file(&dummy_path);
+        let _dummy = UnixDatagram::bind(&dummy_path).unwrap();
         let (tx, rx) = mpsc::channel();
         let (d2, i2) = (dir.clone(), iface.to_string());
         let paused = Arc::new(AtomicBool::new(false));
@@ -86,7 +93,7 @@ impl Bus {
         let ctl = UnixDatagram::unbound().unwrap();
         ctl.connect(&hp).unwrap();
         let inj = UnixDatagram::unbound().unwrap();
-        Bus { dir, iface: iface.to_string(), ctl, inj, rx, log: Vec::new(), paused }
+        Bus { dir, iface: iface.to_string(), ctl, inj, rx, log: Vec::new(), paused, hub2, _dummy, dummy_path }
     }
 
     pub fn endpoints(&self) -> Vec<PathBuf> { endpoints_of(&self.dir, &self.iface) }
@@ -113,6 +120,17 @@ impl Bus {
         let _ = self.ctl.set_nonblocking(false);
     }
     pub fn release(&self) { self.paused.store(false, Ordering::SeqCst); }
+
+    /// every write to the bus fails (EPERM) until `unfail_sends`: the hub socket is connect()ed to a
+    /// dummy peer, so datagrams from every other socket are refused — what a downed interface or a
+    /// full transmit queue (ENOBUFS) looks like to `CANSocket::send`
+    pub fn fail_sends(&self) { let _ = self.hub2.connect(&self.dummy_path); }
+    pub fn unfail_sends(&self) {
+        use std::os::fd::AsRawFd;
+        let mut addr: libc::sockaddr = unsafe { std::mem::zeroed() };
+        addr.sa_family = libc::AF_UNSPEC as libc::sa_family_t;
+        unsafe { libc::connect(self.hub2.as_raw_fd(), &addr, std::mem::size_of::<libc::sockaddr>() as libc::socklen_t); }
+    }
 
     /// a frame from "somewhere else on the bus": delivered to every endpoint
     pub fn inject(&self, raw: &[u8; 16]) {
